@@ -348,12 +348,14 @@ Section ScoreScale.
     (Z.to_nat (fold_left Z.add (map (fun cd => cs_total (snd cd)) sub) 0%Z) + 2)%nat.
 
   Theorem majority_judgment_rel plus cf v v' n : cfg_ok cf (sp_total v) -> sprel v v' ->
-    (plus = false -> forall sub sub' j, screl sub sub' ->
-       mj_default (mj_fuel sub') sub' j = mj_default (mj_fuel sub) sub j) ->
+    (plus = false -> forall sc tied sub' j, corrected_scores cf v = inl sc ->
+       screl (filter (fun cd : C * cscores => cmem (fst cd) tied) sc) sub' ->
+       mj_default (mj_fuel sub') sub' j
+       = mj_default (mj_fuel (filter (fun cd : C * cscores => cmem (fst cd) tied) sc)) (filter (fun cd : C * cscores => cmem (fst cd) tied) sc) j) ->
     majority_judgment plus cf v' n = majority_judgment plus cf v n.
   Proof.
     intros Hcf H Hdef. unfold majority_judgment. pose proof (corrected_scores_rel cf v v' Hcf H) as Hc.
-    destruct (corrected_scores cf v) as [sc|e], (corrected_scores cf v') as [sc'|e']; cbn [sumrel] in Hc; try contradiction; [|congruence].
+    destruct (corrected_scores cf v) as [sc|e] eqn:Esc, (corrected_scores cf v') as [sc'|e']; cbn [sumrel] in Hc; try contradiction; [|congruence].
     rewrite (aggregate_eq FMedianLow sc sc' ltac:(discriminate) Hc).
     destruct (aggregate FMedianLow sc) as [med|e]; [|reflexivity]. cbv zeta.
     destruct (last_tie (get_n_best Qle_bool med n)) as [tied|]; [|reflexivity].
@@ -362,7 +364,7 @@ Section ScoreScale.
     - rewrite (mj_plus_rel _ _ _ Hsub). reflexivity.
     - fold (mj_fuel (filter (fun cd : C * cscores => cmem (fst cd) tied) sc')).
       fold (mj_fuel (filter (fun cd : C * cscores => cmem (fst cd) tied) sc)).
-      rewrite (Hdef eq_refl _ _ _ Hsub). reflexivity.
+      rewrite (Hdef eq_refl sc tied _ _ eq_refl Hsub). reflexivity.
   Qed.
 
   Theorem mj_plus_scale cf votes n : cfg_ok cf (sp_total votes) ->
